@@ -92,10 +92,9 @@ func checkA(c CaseA) *core.Violation {
 	src := []byte(c.Src)
 	parsed, pd := hclsyntax.ParseConfig(src, "", startPos)
 	if pd.HasErrors() {
-		if rejectedOnlyForUnicodeEscape(src, pd) {
-			_, wd := hclwrite.ParseConfig(src, "", startPos)
-			return core.V("P1|valid-source-rejected|unicode-escape", "a file whose only peculiarity is a \\uNNNN / \\UNNNNNNNN escape in a quoted string cannot be loaded: %s\n%s", wd.Error(), clip(c.Src, 2000))
-		}
+		// \uNNNN / \UNNNNNNNN are not escapes of this dialect: the yaotl scanner has \xHH in their place
+		// (the property file lists the accepted escapes as \n \r \t \" \\ and \xHH), so such a source is
+		// not a syntactically valid file and is outside the property like any other rejected source.
 		return nil // not a syntactically valid file: outside the property (counted by classify)
 	}
 	toks, ok := lex(src)
